@@ -3,7 +3,9 @@ import SdnsVerif.Model.UMap
 /-! Line protocol for the `umap` / `segmap` / `cache` / `lim` / `conc` ops of C16.
 
 Keys and values are decimal.  Values of `cache` ops are identity tokens (the
-Go driver maps each token to one distinct pointer).  Eviction at the
+Go driver maps each token to one distinct pointer; token 0 is the nil
+interface, i.e. what a miss yields — a CAS/CAD with old = 0 must still act only
+on a key that is PRESENT and stores nil).  Eviction at the
 `segmap`/`cache`/`lim` level is reported by the implementation in a follow-up
 `evicted` op and VALIDATED here (the property leaves the victim free):
 victims are distinct, present, never the key just written, and the count ends
@@ -244,6 +246,8 @@ def stepLim (st : State) (w : List String) : State × String :=
     | some k => (st, boolStr (st.lim.keys.contains k))
     | none => (st, "bad-op")
   | ["len"] => (st, toString st.lim.keys.length)
+  -- self-contained bulk scenario on its own store: judged by the Go oracle only
+  | "churn" :: _ => (st, "unmodelled")
   | _ => (st, "bad-op")
 
 def step (st : State) (w : List String) : State × String :=
